@@ -213,3 +213,11 @@ enum GameResult {
     Loss,
     Draw,
 }
+
+/// Verification hook (feature `verif-hooks`, off by default): exposes the private UCI
+/// reader used for the external engine's replies so that an external harness can check
+/// the render/read-back round trip. Forwards unchanged.
+#[cfg(feature = "verif-hooks")]
+pub fn verif_create_chess_move_from_uci(uci: &str, board: &Board) -> ChessMove {
+    create_chess_move_from_uci(uci, board)
+}
